@@ -14,7 +14,7 @@ m = dict(
     setup_cmd="./vf setup",
     hooks=dict(
         guard="NNG_VERIF",
-        enable="-DNNG_VERIF added to CMAKE_C_FLAGS by ./vf (flavors asan/tsan/fuzz under /verif/.build); the harness library harness/common/vfh.c defines nni_verif_pt/ev/fail",
+        enable="-DNNG_VERIF added to CMAKE_C_FLAGS by ./vf (flavors asan/tsan/fuzz and vg - a build without compiler sanitizer whose workers run under valgrind memcheck - under /verif/.build); the harness library harness/common/vfh.c defines nni_verif_pt/ev/fail",
         baseline_off_cmd="./vf baseline-off",
         source_commits=list(reversed(hook_commits)),
         add_only=True),
